@@ -14,9 +14,9 @@ def run(ctx):
         hb = variant == "tsan"
         shapes = [(8, 16), (32, 64)] if q else [(4, 8), (8, 16), (16, 32), (32, 64), (64, 64)]
         for j, (maxt, maxw) in enumerate(shapes):
-            for rep in range(2 if q else 6):
-                runs = (60 if q else 600) // (2 if hb else 1)
-                job = dict(cmd=[exe, "--runs", str(runs), "--items", str(3000 if q else 20000), "--wakes", str(150 if q else 1500), "--maxt", str(maxt), "--maxw", str(maxw), "--seed", str(sd * 100 + j * 10 + rep)],
+            for rep in range(2 if q else 3):
+                runs = (60 if q else 200) // (2 if hb else 1)
+                job = dict(cmd=[exe, "--runs", str(runs), "--items", str(3000 if q else 8000), "--wakes", str(150 if q else 500), "--maxt", str(maxt), "--maxw", str(maxw), "--seed", str(sd * 100 + j * 10 + rep)],
                            variant=variant, tag="%s maxt%d rep%d" % (variant, maxt, rep), san_ctx="cond")
                 if hb:
                     job["tsan_log"] = "/tmp/vfC03-%d-%d-%d" % (sd, j, rep)
